@@ -79,8 +79,14 @@ func (x *Exec) builtin(st *State, fr *Frame, dst ssa.Value, b *ssa.Builtin, args
 	case "close":
 		ch := args[0]
 		ap := ""
-		if c, ok := currentCall(fr).(*ssa.Call); ok && len(c.Call.Args) > 0 {
-			ap = accessPath(c.Call.Args[0])
+		var closeArg ssa.Value
+		if x.curDefer != nil && len(x.curDefer.Call.Args) > 0 {
+			closeArg = x.curDefer.Call.Args[0] // a deferred close(ch): named as written at the defer statement
+		} else if c, ok := currentCall(fr).(*ssa.Call); ok && len(c.Call.Args) > 0 {
+			closeArg = c.Call.Args[0]
+		}
+		if closeArg != nil {
+			ap = accessPath(closeArg)
 		}
 		if ap == "" {
 			ap = "chan"
@@ -91,8 +97,8 @@ func (x *Exec) builtin(st *State, fr *Frame, dst ssa.Value, b *ssa.Builtin, args
 		x.oblige(st, "nopanic", fmt.Sprintf("nopanic:close-of-closed@%s#%d", ap, k), Not(st.closed(ch.Term)), pos, "")
 		st.Assume(Neq(ch.Term, IntLit(0)))
 		st.setClosed(ch.Term)
-		if c, ok := currentCall(fr).(*ssa.Call); ok && len(c.Call.Args) > 0 {
-			if u, ok := c.Call.Args[0].(*ssa.UnOp); ok {
+		if closeArg != nil {
+			if u, ok := closeArg.(*ssa.UnOp); ok {
 				if fa, ok := u.X.(*ssa.FieldAddr); ok {
 					if ns := namedStruct(pointee(fa.X.Type())); ns != nil {
 						if bv, ok := fr.Regs[fa.X]; ok && bv.Term != nil {
@@ -172,6 +178,7 @@ func (x *Exec) model(st *State, fr *Frame, dst ssa.Value, callee *ssa.Function, 
 		}
 		wgBefore := copyHeap(st.Heap)
 		defer x.checkWgGuarantee(st, args[0], wgBefore, "add", pos)
+		x.wgAddRule(st, fr, pos)
 		wg := st.ghostArr("wg", SInt)
 		st.Assume(Ge(Select(wg, r), IntLit(0)))
 		nv := Add(Select(wg, r), args[1].Term)
@@ -483,6 +490,11 @@ func (x *Exec) unlock(st *State, fr *Frame, lockv *Val, read bool, pos token.Pos
 		}
 	}
 	x.siteAsserts(st, fr, "unlock:"+ap, pos)
+	for _, lid := range st.Lent {
+		if lid == id {
+			x.failHard(st, "lock", fmt.Sprintf("lock:lent-lock-kept@unlock:%s#%d", ap, k), pos, "unlock of a lock that was lent to a goroutine started by this function")
+		}
+	}
 	if h != nil && h.TC != nil {
 		env := &Env{V: x.V, X: x, St: st, Vars: map[string]*Val{}, Pkg: x.V.P.TPkgs[h.TC.Pkg], Epoch: st.Epoch}
 		env.Vars[h.TC.Self] = &Val{T: types.NewPointer(h.Root), Term: h.Base}
@@ -541,6 +553,9 @@ func (x *Exec) guardCheck(st *State, fp *FieldPtr, write bool, pos token.Pos) {
 	mode := func(m *Monitor) int {
 		md := 0
 		for _, h := range st.Held {
+			if h.Borrowed {
+				continue
+			}
 			if h.Mon == m && h.Base != nil && same(h.Base, fp.Base) {
 				if h.Read && md < 1 {
 					md = 1
@@ -691,6 +706,9 @@ func (x *Exec) interfere(st *State, why string) {
 			sort.Strings(fields)
 			var keep0, keepW []*Term // objects whose monitor m is held (any mode / write mode)
 			for _, h := range st.Held {
+				if h.Borrowed {
+					continue
+				}
 				if h.Mon == m && h.Base != nil {
 					keep0 = append(keep0, h.Base)
 					if !h.Read {
@@ -717,6 +735,9 @@ func (x *Exec) interfere(st *State, why string) {
 						continue
 					}
 					for _, h := range st.Held {
+						if h.Borrowed {
+							continue
+						}
 						if h.Mon == m2 && h.Base != nil && (!h.Read || !m2.RWrite[f]) {
 							keep = append(keep, h.Base)
 						}
@@ -860,6 +881,35 @@ func (x *Exec) interfere(st *State, why string) {
 		for _, s := range x.V.stableWg(st, x) {
 			nwg = Store(nwg, s, Select(wg, s))
 		}
+		// WaitGroups of fields whose adds need a lock of a class this thread holds (or borrows) do not grow
+		for _, tk := range tcs {
+			tc := x.V.C.Types[tk]
+			root := x.V.namedByName(tk)
+			if root == nil || len(tc.WgAddsUnder) == 0 {
+				continue
+			}
+			var fs []string
+			for f := range tc.WgAddsUnder {
+				fs = append(fs, f)
+			}
+			sort.Strings(fs)
+			for _, f := range fs {
+				if !x.holdsLockClass(st, tc.WgAddsUnder[f], false) {
+					continue
+				}
+				x.V.wgAddSweep()
+				x.note("ASSUMED: an object whose " + f + " WaitGroup is added to under locks of class " + tc.WgAddsUnder[f] + " is protected by a single lock of that class (the one held or borrowed)")
+				o := BoundVar("o", SInt)
+				var ref *Term
+				ft := fieldTypeAt(root, []string{f})
+				if _, isPtr := ft.Underlying().(*types.Pointer); isPtr {
+					ref = Select(st.heapGet(heapKeyField(root, f), ArrSort(SInt, SInt)), o)
+				} else {
+					ref = fpAddr(&FieldPtr{Base: o, Root: root, Path: []string{f}, T: ft})
+				}
+				st.Assume(Forall([]*Term{o}, Le(Select(nwg, ref), Select(wg, ref))))
+			}
+		}
 		st.setGhostArr("wg", nwg)
 	}
 	// fields this thread is the only writer of (ghost sole-writer X.f): their value at X is kept
@@ -898,6 +948,89 @@ func (x *Exec) interfere(st *State, why string) {
 	x.assumeStrong(st)
 }
 
+// syncFieldKey: "pkg.Type.field" when the value is (a load of) a struct field.
+func syncFieldKey(v ssa.Value) string {
+	if u, ok := v.(*ssa.UnOp); ok && u.Op == token.MUL {
+		v = u.X
+	}
+	if fa, ok := v.(*ssa.FieldAddr); ok {
+		if ns := namedStruct(pointee(fa.X.Type())); ns != nil {
+			return typeName(ns) + "." + ns.Underlying().(*types.Struct).Field(fa.Field).Name()
+		}
+	}
+	return ""
+}
+
+// wgAddRule: WaitGroups of a field declared `wgadds F under L` are only added to under a lock of class L.
+func (x *Exec) wgAddRule(st *State, fr *Frame, pos token.Pos) {
+	var recv ssa.Value
+	switch c := currentCall(fr).(type) {
+	case *ssa.Call:
+		if len(c.Call.Args) > 0 {
+			recv = c.Call.Args[0]
+		}
+	}
+	if recv == nil {
+		return
+	}
+	key := syncFieldKey(recv)
+	if key == "" {
+		return
+	}
+	i := strings.LastIndex(key, ".")
+	tc := x.V.C.Types[key[:i]]
+	if tc == nil || tc.WgAddsUnder[key[i+1:]] == "" {
+		return
+	}
+	cls := tc.WgAddsUnder[key[i+1:]]
+	k := x.site(st, "wgaddunder:"+key)
+	name := fmt.Sprintf("guarded:add-to-%s-under-%s#%d", key[i+1:], cls, k)
+	if x.holdsLockClass(st, cls, true) && len(st.Lent) == 0 {
+		x.oblige(st, "guarded", name, True, pos, "")
+	} else {
+		x.failHard(st, "guarded", name, pos, "Add on "+key+" without holding a lock of class "+cls+" (or while the lock is lent to a goroutine)")
+	}
+}
+
+// wgAddSweep: the add-under-lock rule is only as good as its coverage: every Add call site of the module must have a
+// receiver that is a struct field or a local variable (an Add through a parameter could reach a ruled WaitGroup unseen).
+func (v *Verifier) wgAddSweep() {
+	if v.wgSwept {
+		return
+	}
+	v.wgSwept = true
+	for fn := range v.P.All {
+		for _, b := range fn.Blocks {
+			for _, in := range b.Instrs {
+				c, ok := in.(*ssa.Call)
+				if !ok {
+					continue
+				}
+				sc := c.Call.StaticCallee()
+				if sc == nil || sc.String() != "(*sync.WaitGroup).Add" || len(c.Call.Args) == 0 {
+					continue
+				}
+				a := c.Call.Args[0]
+				if syncFieldKey(a) != "" {
+					continue
+				}
+				switch t := a.(type) {
+				case *ssa.Alloc, *ssa.FreeVar:
+					continue
+				case *ssa.UnOp:
+					if _, ok := t.X.(*ssa.Alloc); ok {
+						continue
+					}
+					if _, ok := t.X.(*ssa.FreeVar); ok {
+						continue
+					}
+				}
+				unsupportedf("wgadds rule: %s adds to a WaitGroup reached through %T (not a field or a local)", fn, a)
+			}
+		}
+	}
+}
+
 // checkWgGuarantee: a change of a WaitGroup that is a field of a type with relies must respect them (relies may
 // speak about wg(...), e.g. "no new tokens once closed"): checked as a two-state obligation around the operation.
 func (x *Exec) checkWgGuarantee(st *State, wgv *Val, before map[string]*Term, what string, pos token.Pos) {
@@ -931,6 +1064,9 @@ func (x *Exec) checkWgGuarantee(st *State, wgv *Val, before map[string]*Term, wh
 // holdsLockClass: the thread holds a lock that is monitor "pkg.Type.lockfield" of some object (in write mode if asked).
 func (x *Exec) holdsLockClass(st *State, cls string, write bool) bool {
 	for _, h := range st.Held {
+		if h.Borrowed && write {
+			continue
+		}
 		if h.TC != nil && h.Mon != nil && h.TC.Pkg+"."+h.TC.Name+"."+h.Mon.Lock == cls && (!write || !h.Read) {
 			return true
 		}
@@ -954,7 +1090,7 @@ func (x *Exec) ownedChans(st *State, heap map[string]*Term) []*Term {
 	sort.Strings(ids)
 	for _, id := range ids {
 		h := st.Held[id]
-		if h.Mon == nil || h.Root == nil {
+		if h.Mon == nil || h.Root == nil || h.Borrowed {
 			continue
 		}
 		var fs []string
@@ -1377,6 +1513,21 @@ func (x *Exec) goStmt(st *State, fr *Frame, i *ssa.Go) {
 					mine := st.ghostArr("wgmine", SInt)
 					x.oblige(st, "pre", fmt.Sprintf("pre:wg-token-handed-over@go:%s#%d", name, k), Ge(Select(mine, r), IntLit(1)), i.Pos(), cl.Text)
 					st.setGhostArr("wgmine", Store(mine, r, Sub(Select(mine, r), IntLit(1))))
+				case strings.HasPrefix(cl.Text, "borrows "):
+					// the new goroutine relies on a lock the spawning thread keeps holding
+					e, err := ParseExpr(strings.TrimPrefix(cl.Text, "borrows "))
+					if err != nil {
+						panic(unsupported{err.Error()})
+					}
+					lv := x.V.evalLockRef(env, x, st, e)
+					id := x.refOf(lv).String()
+					_, held := st.Held[id]
+					if held || x.V.entryHeld[id] {
+						x.oblige(st, "pre", fmt.Sprintf("pre:lock-lent@go:%s#%d", name, k), True, i.Pos(), cl.Text)
+						st.Lent = append(st.Lent[:len(st.Lent):len(st.Lent)], id)
+					} else {
+						x.failHard(st, "pre", fmt.Sprintf("pre:lock-lent@go:%s#%d", name, k), i.Pos(), "the goroutine's contract says it borrows "+cl.Text[8:]+", which the spawning thread does not hold")
+					}
 				case strings.HasPrefix(cl.Text, "holds "):
 					// lock hand-off: the spawning thread must hold the lock and gives it up
 					e, err := ParseExpr(strings.TrimPrefix(cl.Text, "holds "))
